@@ -25,7 +25,16 @@ func (msg *recvMsg) DecodeTTLV(d *ttlv.Decoder) error {
 	default:
 		return ttlv.Errorf("Unexpected tag %q", ttlv.TagString(d.Tag()))
 	}
-	return d.Any(&msg.msg)
+	if err := d.Any(&msg.msg); err != nil {
+		if !ttlv.IsErrEncoding(err) {
+			// Every failure to decode a correctly framed message is an encoding error, whatever
+			// the decoder of a nested type returned: the peer gets an invalid-message reply
+			// instead of a silently dropped connection.
+			return ttlv.Errorf("%w", err)
+		}
+		return err
+	}
+	return nil
 }
 
 type rxMsg struct {
